@@ -109,6 +109,7 @@ type Exec struct {
 	probes     map[string][]probeRec
 	inProbe    bool
 	nsamples   int
+	vbounds    map[*Term]ival
 	shared     int
 
 	entryPkg *ssa.Package
@@ -161,6 +162,7 @@ func (e *Exec) assertPC(t *Term) {
 		return
 	}
 	e.asserted = append(e.asserted, t)
+	e.refine(t, true)
 	e.solver.Assert(t)
 }
 
